@@ -58,79 +58,86 @@ example : cleanup "a.b" = cleanup "a_b" ∧ cleanup "5" = cleanup "__5" ∧ clea
 
 /-! ## the renaming applied to a graph -/
 
-/-- **The short-name mapper keys on the cleaned name**: over any request sequence, two requests get the
-same `v<k>` iff their keys are equal (all lengths, all histories from a fresh mapper). -/
+/-- **The short-name mapper**: over any request sequence, two requests get the same `v<k>` iff their keys are
+equal (all lengths, all histories from a fresh mapper).  Since da27432 the key is the ONNX name itself. -/
 theorem short_names_collide_iff (ks : List String) (i j : Nat) (hi : i < ks.length) (hj : j < ks.length)
     (hi' : i < (shortRun [] ks).1.length) (hj' : j < (shortRun [] ks).1.length) :
     (shortRun [] ks).1[i] = (shortRun [] ks).1[j] ↔ ks[i] = ks[j] :=
   shortRun_eq_iff ks i j hi hj hi' hj'
 
 /-- The renaming the exporter applies to the value names of a main graph (no attribute parameters, no
-remapping scope, names requested in the order `ns`) has one output per name. -/
+remapping, names requested in the order `ns`) has one output per name. -/
 theorem rename_table_length (o : Opts) (ns : List String) (hne : ∀ n ∈ ns, n ≠ "") :
     (translateVars o {} ns).1.length = ns.length := by
   cases hr : o.rename
-  · rw [translateVars_fresh_clean o hr ns {} rfl rfl hne]; simp
-  · rw [translateVars_fresh_short o hr ns {} rfl rfl hne]
+  · rw [translateVars_uniq o hr ns {} plain_empty]; simp
+  · rw [translateVars_fresh_short o hr ns {} rfl (fun _ => rfl) hne]
     simp only [List.length_map]
-    exact (shortRun_spec (ns.map cleanup) [] List.nodup_nil).2.2.1.trans (by simp)
+    exact (shortRun_spec ns [] List.nodup_nil).2.2.1
 
-/-- **Two values get the same Python name exactly when their cleaned names coincide** — under
-`rename=False` and under `rename=True` alike. -/
-theorem rename_eq_iff_cleanup_eq (o : Opts) (ns : List String) (hne : ∀ n ∈ ns, n ≠ "")
+/-- **Two values get the same Python name exactly when they are the same ONNX value** — for every list of
+names (every length, colliding clean-ups included), under `rename=False` (the uniquifying mapper) and under
+`rename=True` (the short-name mapper) alike.  This is what the per-export uniquifier guarantees. -/
+theorem rename_eq_iff_name_eq (o : Opts) (ns : List String) (hne : ∀ n ∈ ns, n ≠ "")
     (i j : Nat) (hi : i < ns.length) (hj : j < ns.length) :
-    (translateVars o {} ns).1[i]? = (translateVars o {} ns).1[j]? ↔ cleanup ns[i] = cleanup ns[j] := by
+    (translateVars o {} ns).1[i]? = (translateVars o {} ns).1[j]? ↔ ns[i] = ns[j] := by
   cases hr : o.rename
-  · rw [translateVars_fresh_clean o hr ns {} rfl rfl hne]
+  · rw [translateVars_uniq o hr ns {} plain_empty]
     simp only [List.getElem?_map, List.getElem?_eq_getElem hi, List.getElem?_eq_getElem hj, Option.map_some,
       Option.some.injEq]
-  · rw [translateVars_fresh_short o hr ns {} rfl rfl hne]
-    have hlen := (shortRun_spec (ns.map cleanup) [] List.nodup_nil).2.2.1
-    have hi' : i < (shortRun [] (ns.map cleanup)).1.length := by rw [hlen]; simpa using hi
-    have hj' : j < (shortRun [] (ns.map cleanup)).1.length := by rw [hlen]; simpa using hj
+    have hT : TblInv (uniqRun ({} : St).uniq ns) := tblInv_uniqRun ns tblInv_nil
+    constructor
+    · intro h
+      exact pyT_inj hT (hne _ (List.getElem_mem hi)) (hne _ (List.getElem_mem hj))
+        (present_uniqRun ns _ _ (List.getElem_mem hi)) (present_uniqRun ns _ _ (List.getElem_mem hj)) h
+    · intro h; rw [h]
+  · rw [translateVars_fresh_short o hr ns {} rfl (fun _ => rfl) hne]
+    have hlen := (shortRun_spec ns [] List.nodup_nil).2.2.1
+    have hi' : i < (shortRun [] ns).1.length := by rw [hlen]; exact hi
+    have hj' : j < (shortRun [] ns).1.length := by rw [hlen]; exact hj
     simp only [List.getElem?_map, List.getElem?_eq_getElem hi', List.getElem?_eq_getElem hj', Option.map_some,
       Option.some.injEq]
-    have hi2 : i < (ns.map cleanup).length := by simpa using hi
-    have hj2 : j < (ns.map cleanup).length := by simpa using hj
-    have key := shortRun_eq_iff (ns.map cleanup) i j hi2 hj2 hi' hj'
-    simp only [List.getElem_map] at key
+    have key := shortRun_eq_iff ns i j hi hj hi' hj'
     constructor
     · intro h; exact key.mp (short_label_inj h)
     · intro h; rw [key.mpr h]
 
-/-- **`rename_injective_partial`**: when the clean-up is injective on the names of the graph, the exporter's
-renaming keeps distinct values distinct (both renaming modes).  The hypothesis is exactly what the proof
-forces: `export_names_injective_refuted` shows it cannot be dropped. -/
-theorem rename_injective_partial (o : Opts) (ns : List String) (hne : ∀ n ∈ ns, n ≠ "")
-    (hinj : ∀ a ∈ ns, ∀ b ∈ ns, cleanup a = cleanup b → a = b)
+/-- **`export_names_injective`** (holds since da27432, no hypothesis on the names): distinct values of a graph
+never share a Python variable, under every option tuple. -/
+theorem export_names_injective (o : Opts) (ns : List String) (hne : ∀ n ∈ ns, n ≠ "") (hnd : ns.Nodup)
     (i j : Nat) (hi : i < ns.length) (hj : j < ns.length)
-    (h : (translateVars o {} ns).1[i]? = (translateVars o {} ns).1[j]?) : ns[i] = ns[j] :=
-  hinj _ (List.getElem_mem hi) _ (List.getElem_mem hj) ((rename_eq_iff_cleanup_eq o ns hne i j hi hj).mp h)
+    (h : (translateVars o {} ns).1[i]? = (translateVars o {} ns).1[j]?) : i = j :=
+  (List.getElem_inj hnd).mp ((rename_eq_iff_name_eq o ns hne i j hi hj).mp h)
 
-example : ∀ a ∈ ["x", "t_1", "out"], ∀ b ∈ ["x", "t_1", "out"], cleanup a = cleanup b → a = b := by decide
+/-- … and the uniquified names are never empty and never a Python keyword (`rename=False`). -/
+theorem export_names_not_keywords (o : Opts) (hr : o.rename = false) (ns : List String) (hne : ∀ n ∈ ns, n ≠ "") :
+    ∀ x ∈ (translateVars o {} ns).1, x ≠ "" ∧ x ≠ "None" := by
+  rw [translateVars_uniq o hr ns {} plain_empty]
+  intro x hx
+  obtain ⟨n, hn, rfl⟩ := List.mem_map.mp hx
+  have hT : TblInv (uniqRun ({} : St).uniq ns) := tblInv_uniqRun ns tblInv_nil
+  exact ⟨pyT_ne_empty hT (hne n hn) (present_uniqRun ns _ _ hn), pyT_ne_None hT (hne n hn) (present_uniqRun ns _ _ hn)⟩
 
-/-- The full statement (distinct values always stay distinct) is false — finding D14: `a.b` and `a_b`
-receive the same Python name under every option tuple. -/
-theorem export_names_injective_refuted :
-    ¬ (∀ (o : Opts) (ns : List String), (∀ n ∈ ns, n ≠ "") → ns.Nodup →
-        ∀ i j (_ : i < ns.length) (_ : j < ns.length),
-          (translateVars o {} ns).1[i]? = (translateVars o {} ns).1[j]? → i = j) := by
+example : (translateVars ⟨false, false, false, false⟩ {} ["a.b", "a_b", "a:b", "a_b_1", "a.b"]).1
+    = ["a_b", "a_b_1", "a_b_2", "a_b_1_1", "a_b"] := by decide
+
+/-- Pre-fix behaviour, kept as the refuted statement (finding D14, fixed by da27432): the renamer used to be the
+clean-up alone, and the clean-up is not injective. -/
+theorem cleanup_alone_not_injective_prefix_refuted :
+    ¬ (∀ a b : String, cleanup a = cleanup b → a = b) := by
   intro h
-  have := h ⟨false, false, false, false⟩ ["a.b", "a_b"] (by decide) (by decide) 0 1 (by decide) (by decide) (by decide)
-  exact absurd this (by decide)
+  exact absurd (h "a.b" "a_b" (by decide)) (by decide)
 
-
-/-- The D14 witness as a whole model: `t = Relu(x)` named `a.b`, `u = Neg(x)` named `a_b`,
-`y = Sub(a.b, a_b)` is exported as a program that assigns `a_b` twice and subtracts it from itself
-(replayed on the real exporter by the harness: `[-1,4,6]` becomes `[0,0,0]`). -/
-theorem d14_witness_program :
+/-- The D14 witness as a whole model after the fix: `t = Relu(x)` named `a.b`, `u = Neg(x)` named `a_b`,
+`y = Sub(a.b, a_b)` keeps two variables `a_b`, `a_b_1`. -/
+theorem d14_witness_program_fixed :
     (exportModel ⟨false, false, false, false⟩ 2
       ⟨"g", none, [("", 18)],
        .mk ["x"] ["y"] [] 0
         [.mk "Relu" "" "" ["x"] ["a.b"] [], .mk "Neg" "" "" ["x"] ["a_b"] [],
          .mk "Sub" "" "" ["a.b", "a_b"] ["y"] []]⟩).toOption
-      = some ["sig g(x|)", "L1 call a_b = opset18.Relu(x|)", "L1 call a_b = opset18.Neg(x|)",
-             "L1 call y = opset18.Sub(a_b,a_b|)", "L1 return y"] := by
+      = some ["deco ", "sig g(x|)", "L1 call a_b = opset18.Relu(x|)", "L1 call a_b_1 = opset18.Neg(x|)",
+             "L1 call y = opset18.Sub(a_b,a_b_1|)", "L1 return y"] := by
   decide +kernel
 
 /-! ## refusals (`export_refuses`) -/
@@ -185,22 +192,52 @@ example : ∃ e, exportModel ⟨false, true, true, false⟩ 3
 
 /-! ## inline constants -/
 
-/-- **Which constants are inlined** (`_get_const_repr`): exactly FLOAT (1) / INT64 (7) tensors of rank 0, or of
-rank 1 with fewer than 5 elements — for every dtype and every shape. -/
-theorem const_inlined_iff (dtype : Nat) (dims : List Nat) (lit : String) :
-    (constRepr (.tensor dtype dims lit)).isSome = true ↔
-      (dtype = 1 ∨ dtype = 7) ∧ (dims = [] ∨ ∃ n, dims = [n] ∧ n < 5) := by
+/-- **Which constants are inlined** (`_get_const_repr`, after 4e95266 and 71b4284): exactly FLOAT (1) / INT64 (7)
+tensors of rank 0, or of rank 1 with 1 to 4 elements, all of whose elements are finite — for every dtype, every
+shape. -/
+theorem const_inlined_iff (dtype : Nat) (dims : List Nat) (finite : Bool) (lit : String) :
+    (constRepr (.tensor dtype dims finite lit)).isSome = true ↔
+      (dtype = 1 ∨ dtype = 7) ∧ (dims = [] ∨ ∃ n, dims = [n] ∧ 0 < n ∧ n < 5) ∧ finite = true := by
   unfold constRepr
-  by_cases h : (dtype == 1 || dtype == 7) = true
-  · have h' : dtype = 1 ∨ dtype = 7 := by simpa using h
-    simp only [h, if_true]
-    match dims with
-    | [] => simp [h']
-    | [n] => by_cases hn : n < 5 <;> simp [hn, h']
-    | _ :: _ :: _ => simp
-  · have h' : ¬ (dtype = 1 ∨ dtype = 7) := by simpa using h
-    simp only [h]
-    simp [h']
+  match dims with
+  | [] =>
+    by_cases h : (dtype == 1 || dtype == 7) = true
+    · have h' : dtype = 1 ∨ dtype = 7 := by simpa using h
+      cases finite <;> simp [h, h']
+    · have h' : ¬ (dtype = 1 ∨ dtype = 7) := by simpa using h
+      simp [h, h']
+  | [n] =>
+    by_cases h0 : n = 0
+    · subst h0; simp
+    · have hc : ([n].contains 0) = false := by simp; omega
+      by_cases h : (dtype == 1 || dtype == 7) = true
+      · have h' : dtype = 1 ∨ dtype = 7 := by simpa using h
+        by_cases hn : n < 5 <;> cases finite <;> simp [hc, h, h', hn] <;> omega
+      · have h' : ¬ (dtype = 1 ∨ dtype = 7) := by simpa using h
+        simp [hc, h, h']
+  | a :: b :: rest =>
+    by_cases hc : ((a :: b :: rest).contains 0) = true
+    · simp [hc]
+    · have hc' : ((a :: b :: rest).contains 0) = false := by simpa using hc
+      by_cases h : (dtype == 1 || dtype == 7) = true
+      · simp [hc', h]
+      · simp [hc', h]
+
+/-- Non-finite constants (C13-NANINF, fixed by 71b4284) and empty constants (C13-EMPTYLIST, fixed by 4e95266)
+are never inlined: the node stays an ordinary `Constant(value=make_tensor(…))` call. -/
+theorem nonfinite_and_empty_not_inlined (dtype : Nat) (dims : List Nat) (finite : Bool) (lit : String)
+    (h : finite = false ∨ 0 ∈ dims) : constRepr (.tensor dtype dims finite lit) = none := by
+  have := const_inlined_iff dtype dims finite lit
+  cases hc : constRepr (.tensor dtype dims finite lit) with
+  | none => rfl
+  | some x =>
+    rw [hc] at this
+    have h2 := this.mp rfl
+    rcases h with h | h
+    · rw [h] at h2; exact absurd h2.2.2 (by decide)
+    · rcases h2.2.1 with h3 | ⟨n, h3, h4, _⟩
+      · rw [h3] at h; cases h
+      · rw [h3] at h; simp at h; omega
 
 /-- `Less` is never printed as an operator (the table's key is the non-existent `"Lesser"`), every option tuple. -/
 theorem less_not_sugared : opsTable.lookup "Less" = none ∧ opsTable.lookup "Lesser" = some "<" := by decide
@@ -210,23 +247,23 @@ every integer.  (Finite floats rely on CPython's shortest-repr round trip, A-py,
 the harness on every generated constant.) -/
 theorem inline_const_repr_partial (i : Int) : (Int.repr i).toInt? = some i := Int.toInt?_repr i
 
-/-- The full statement fails for FLOAT scalars: `str(np.float32('nan'))`, `str(np.float32('inf'))` are the
-bare words `nan`, `inf`: Python identifiers and not keywords, hence not literals — the generated text
-reads an unbound *name* (replayed on the real exporter: `ValueError: Unbound name: nan`). -/
-theorem inline_const_repr_naninf_refuted :
+/-- Why non-finite constants must not be printed with `str()` (pre-fix behaviour, C13-NANINF):
+`str(np.float32('nan'))`, `str(np.float32('inf'))` are the bare words `nan`, `inf` — Python identifiers and not
+keywords, hence names, not literals. -/
+theorem inline_const_repr_naninf_prefix_refuted :
     (isPyIdentL "nan".toList = true ∧ "nan".toList ∉ kwlistL) ∧
     (isPyIdentL "inf".toList = true ∧ "inf".toList ∉ kwlistL) := by decide
 
 
 /-! ## Lean witnesses of the other reproduced findings (each is replayed on the real exporter by the harness) -/
 
-/-- C13-RENAME-SIG: with `rename=True` the body of a main graph uses `v1, v2, …` while the signature keeps the
-cleaned input names — the input `x` is read as the unbound `v2`. -/
-theorem rename_signature_not_renamed_witness :
+/-- C13-RENAME-SIG (fixed by efaa07e): with `rename=True` the signature of a main graph is printed through the
+same renamer as the body (after the body, so the numbering of the body is unchanged): input `x` is `v2` in both. -/
+theorem rename_signature_fixed :
     (exportModel ⟨true, false, false, false⟩ 2
       ⟨"g", none, [("", 18)],
        .mk ["x"] ["y"] [] 0 [.mk "Relu" "" "" ["x"] ["t"] [], .mk "Neg" "" "" ["t"] ["y"] []]⟩).toOption
-      = some ["sig g(x|)", "L1 call v1 = opset18.Relu(v2|)", "L1 call v3 = opset18.Neg(v1|)", "L1 return v3"] := by
+      = some ["deco ", "sig g(v2|)", "L1 call v1 = opset18.Relu(v2|)", "L1 call v3 = opset18.Neg(v1|)", "L1 return v3"] := by
   decide +kernel
 
 /-- the loop body `s_out = Add(s_in, x); c_out = Identity(c_in)` of the two loop witnesses -/
@@ -240,7 +277,7 @@ state hand-over are printed as for a function body. -/
 theorem for_loop_in_main_graph_fixed :
     (exportModel ⟨false, false, false, false⟩ 3 ⟨"g", none, [("", 18)],
         .mk ["x", "n"] ["y"] [] 0 [.mk "Loop" "" "" ["n", "", "x"] ["y"] [("body", .graph forBody)]]⟩).toOption
-      = some ["sig g(x,n|)", "L1 assign s_in = x", "L1 for i n", "L2 call s_out = opset18.Add(s_in,x|)",
+      = some ["deco ", "sig g(x,n|)", "L1 assign s_in = x", "L1 for i n", "L2 call s_out = opset18.Add(s_in,x|)",
               "L2 assign s_in = s_out", "L1 assign y = s_in", "L1 return y"] := by
   decide +kernel
 
@@ -267,7 +304,7 @@ theorem for_loop_in_function_ok :
     (exportFunction ⟨false, false, false, false⟩ 3
       ⟨"f", "this", ["x", "n"], ["y"], [], ["x", "n", "y", "i", "c_in", "s_in", "c_out", "s_out"], [("", 18)],
        [.mk "Loop" "" "" ["n", "", "x"] ["y"] [("body", .graph forBody)]]⟩).toOption
-      = some ["sig f(x,n|)", "L1 assign s_in = x", "L1 for i n", "L2 call s_out = opset18.Add(s_in,x|)",
+      = some ["deco this1", "sig f(x,n|)", "L1 assign s_in = x", "L1 for i n", "L2 call s_out = opset18.Add(s_in,x|)",
               "L2 assign s_in = s_out", "L1 assign y = s_in", "L1 return y"] := by
   decide +kernel
 
@@ -276,34 +313,53 @@ at depth 1, without `make_model` — exactly the text of `skip_initializers=Fals
 theorem skip_initializers_nothing_skipped_fixed :
     (exportModel ⟨false, false, false, true⟩ 2
         ⟨"g", none, [("", 18)], .mk ["x"] ["y"] [] 0 [.mk "Relu" "" "" ["x"] ["y"] []]⟩).toOption
-      = some ["sig g(x|)", "L1 call y = opset18.Relu(x|)", "L1 return y"] := by
+      = some ["deco ", "sig g(x|)", "L1 call y = opset18.Relu(x|)", "L1 return y"] := by
   decide +kernel
 
 /-- … and with a large initializer the function stays one level deep inside `make_model(w)`. -/
 theorem skip_initializers_wrapped :
     (exportModel ⟨false, false, false, true⟩ 2
-        ⟨"g", none, [("", 18)], .mk ["x"] ["y"] [("w", 6, 1, [6], "#big")] 0 [.mk "Add" "" "" ["x", "w"] ["y"] []]⟩).toOption
-      = some ["wrap w", "sig g(x|)", "L2 call y = opset18.Add(x,w|)", "L2 return y"] := by
+        ⟨"g", none, [("", 18)], .mk ["x"] ["y"] [("w", 6, 1, [6], true, "#big")] 0 [.mk "Add" "" "" ["x", "w"] ["y"] []]⟩).toOption
+      = some ["wrap w", "deco ", "sig g(x|)", "L2 call y = opset18.Add(x,w|)", "L2 return y"] := by
   decide +kernel
 
 /-- C13-INLINE-DANGLING: an inlined constant that is a graph output is dropped and then returned by name. -/
 theorem inline_const_output_dangling_witness :
     (exportModel ⟨false, false, true, false⟩ 2
       ⟨"g", none, [("", 18)],
-       .mk ["x"] ["k"] [] 0 [.mk "Constant" "" "" [] ["k"] [("value", .tensor 1 [] "#0")]]⟩).toOption
-      = some ["sig g(x|)", "L1 return k"] := by
+       .mk ["x"] ["k"] [] 0 [.mk "Constant" "" "" [] ["k"] [("value", .tensor 1 [] true "#0")]]⟩).toOption
+      = some ["deco ", "sig g(x|)", "L1 return k"] := by
   decide +kernel
 
-/-- C13-ATTR-INPUT-CLASH: in a FunctionProto the inputs are translated before the attribute parameters are
-registered, so an input whose Python name equals an attribute parameter appears twice in the signature
-(`def af_w(v2, v2: float)`: not valid Python) while the body reads the input as `v2_0`. -/
-theorem attr_input_clash_witness :
+/-- C13-ATTR-INPUT-CLASH (fixed by 9e40403): the attribute parameters are registered before the inputs are
+translated, so an input whose Python name equals an attribute parameter is renamed in the signature exactly as in
+the body (`v1_0`), and the signature has no duplicate. -/
+theorem attr_input_clash_fixed :
     (exportFunction ⟨true, false, false, false⟩ 2
-      ⟨"af_w", "this", ["X"], ["y"], ["v2"], ["y", "X"], [("", 18)],
-       [.mk "Elu" "" "" ["X"] ["y"] [("alpha", .ref "v2")]]⟩).toOption
-      = some ["sig af_w(v2|v2)", "L1 call v1 = opset18.Elu(v2_0|alpha=@v2)", "L1 return v1"] := by
+      ⟨"af_w", "this", ["X"], ["y"], ["v1"], ["X", "y"], [("", 18)],
+       [.mk "Elu" "" "" ["X"] ["y"] [("alpha", .ref "v1")]]⟩).toOption
+      = some ["deco this1", "sig af_w(v1_0|v1)", "L1 call v2 = opset18.Elu(v1_0|alpha=@v1)", "L1 return v2"] := by
   decide +kernel
 
+/-- C13-POW-NEG (fixed by b6d60b3): the negative literal base of `**` is printed in parentheses … -/
+theorem pow_neg_parenthesised_fixed :
+    (exportModel ⟨false, true, true, false⟩ 2
+      ⟨"g", none, [("", 18)],
+       .mk ["x"] ["y"] [] 0
+        [.mk "Constant" "" "" [] ["c"] [("value", .tensor 1 [] true "-#0")], .mk "Pow" "" "" ["c", "x"] ["y"] []]⟩).toOption
+      = some ["deco default_opset=opset18", "sig g(x|)", "L1 op y = (-#0) ** x", "L1 return y"] := by
+  decide +kernel
+
+/-- … and nothing else is ever parenthesised: the operand list is unchanged unless the operator is `Pow` and the
+first operand's text starts with `-`. -/
+theorem powParen_only_pow_neg (op : String) (a : String) (rest : List String)
+    (h : op ≠ "Pow" ∨ a.toList.head? ≠ some '-') : powParen op (a :: rest) = a :: rest := by
+  unfold powParen
+  rcases h with h | h
+  · have : (op == "Pow") = false := by simpa using h
+    simp [this]
+  · have : (a.toList.head? == some '-') = false := by simpa using h
+    simp [this]
 
 /-! ## the round trip on the straight-line fragment (`export_roundtrip`) -/
 
@@ -316,21 +372,19 @@ theorem export_prints_straight (o : Opts) (m : ModelP) (h : straightModel o m = 
     exportModel o (d + 1) m = .ok (renderProg (exportStraight o m)) :=
   exportModel_straight o m h d
 
-/-- **`export_roundtrip_partial`** — ONNX → Python → ONNX on the straight-line fragment: if the clean-up is
-injective on the names of the graph, the graph the converter reads back from the exported program
-(`progToGraph`: one node per statement, callee through the import table, operator sugar through the converter's
-own `primop_map`, `None` ↦ absent input) computes the same outputs as the original **for every operator semantics
-`S` (uninterpreted), every argument list**, and has the cleaned signature.  *Partial*: (1) the injectivity
-hypothesis is forced (D14, `export_names_injective_refuted`); (2) `straightModel` excludes exactly the asymmetric
-sugar cases (`sugar_table_asymmetry`, `sugar_reads_back_without_attributes`), inlined constants (C13-POW-NEG,
-`pow_neg_literal_refuted`; C13-NANINF) and control flow (observed by the execution oracle, not proved). -/
+/-- **`export_roundtrip_partial`** — ONNX → Python → ONNX on the straight-line fragment, **without any hypothesis on
+the names** (since da27432 the exporter's renaming is injective by construction): the graph the converter reads
+back from the exported program (`progToGraph`: one node per statement, callee through the import table, operator
+sugar through the converter's own `primop_map`, `None` ↦ absent input) computes the same outputs as the original
+**for every operator semantics `S` (uninterpreted), every argument list**, and its inputs/outputs are the original
+ones renamed by the export's table.  *Partial* because of the fragment only: `straightModel` excludes the
+asymmetric sugar cases (`sugar_table_asymmetry`, `sugar_reads_back_without_attributes`), inlined constants,
+initializers and control flow (those are observed by the execution oracle, not proved). -/
 theorem export_roundtrip_partial {V : Type} (S : Sem V) (o : Opts) (m : ModelP)
-    (hfrag : straightModel o m = true)
-    (hinj : ∀ a ∈ namesOfGraph 0 m.graph, ∀ b ∈ namesOfGraph 0 m.graph, cleanup a = cleanup b → a = b)
-    (args : List V) :
+    (hfrag : straightModel o m = true) (args : List V) :
     evalGraph S (progToGraph (exportStraight o m)) args = evalGraph S m.graph args
-    ∧ (progToGraph (exportStraight o m)).inputs = m.graph.inputs.map cleanup
-    ∧ (progToGraph (exportStraight o m)).outputs = m.graph.outputs.map cleanup := by
+    ∧ (progToGraph (exportStraight o m)).inputs = m.graph.inputs.map (tblF (finalTable o m))
+    ∧ (progToGraph (exportStraight o m)).outputs = m.graph.outputs.map (tblF (finalTable o m)) := by
   have hsyn := progToGraph_exportStraight o m hfrag
   have h' := hfrag
   unfold straightModel at h'
@@ -338,15 +392,32 @@ theorem export_roundtrip_partial {V : Type} (S : Sem V) (o : Opts) (m : ModelP)
   obtain ⟨⟨⟨⟨⟨⟨⟨⟨⟨⟨_, _⟩, _⟩, _⟩, _⟩, _⟩, hin⟩, hout⟩, _⟩, _⟩, _⟩ := h'
   rw [hsyn]
   refine ⟨?_, rfl, rfl⟩
-  exact evalGraph_ren S cleanup m.graph ⟨hinj, fun a _ ha => cleanup_ne_empty a ha⟩ hin hout args
+  exact evalGraph_ren S (tblF (finalTable o m)) m.graph (goodRen_finalTable o m hfrag) hin hout args
 
-/-- non-vacuity: a model of the fragment with names that need cleaning, sugar on, and injective clean-up -/
+/-- the renaming of the theorem is injective on the graph's names and never yields the empty name -/
+theorem export_roundtrip_renaming_injective (o : Opts) (m : ModelP) (hfrag : straightModel o m = true) :
+    ∀ a ∈ namesOfGraph 0 m.graph, ∀ b ∈ namesOfGraph 0 m.graph,
+      tblF (finalTable o m) a = tblF (finalTable o m) b → a = b :=
+  (goodRen_finalTable o m hfrag).inj
+
+/-- non-vacuity: a model of the fragment whose names collide after clean-up (`t.0` / `t_0`), need cleaning
+(`x.1`, `5`, `y:0`), with sugar on and an absent optional input -/
 example :
     straightModel ⟨false, true, false, true⟩
       ⟨"g", none, [("", 18)],
        .mk ["x.1", "5"] ["y:0"] [] 0
-        [.mk "Relu" "" "" ["x.1"] ["t.0"] [], .mk "Add" "" "" ["t.0", "5"] ["u"] [],
+        [.mk "Relu" "" "" ["x.1"] ["t.0"] [], .mk "Neg" "" "" ["x.1"] ["t_0"] [],
+         .mk "Add" "" "" ["t.0", "t_0"] ["u"] [],
          .mk "Clip" "" "" ["u", "", "5"] ["y:0"] [("dummy", .plain)]]⟩ = true := by decide
+
+example :
+    (exportStraight ⟨false, true, false, true⟩
+      ⟨"g", none, [("", 18)],
+       .mk ["x.1", "5"] ["y:0"] [] 0
+        [.mk "Relu" "" "" ["x.1"] ["t.0"] [], .mk "Neg" "" "" ["x.1"] ["t_0"] [],
+         .mk "Add" "" "" ["t.0", "t_0"] ["u"] []]⟩).body.map (renderStmt 1)
+      = ["L1 call t_0 = opset18.Relu(x_1|)", "L1 call t_0_1 = opset18.Neg(x_1|)", "L1 op u = t_0 + t_0_1"] := by
+  decide
 
 /-- **Which table entries are asymmetric**: of the exporter's operator table exactly the (dead) key `"Lesser"` is
 not mapped back to itself by the converter's `primop_map` (`<` reads back as `Less`); every other entry is
@@ -384,5 +455,37 @@ theorem pow_neg_only_power (a b : Operand) (sym : String) (h : sym ≠ "**") : p
   cases a with
   | name s => rfl
   | lit neg mag => cases neg <;> simp [h]
+
+/-- C13-OPS-NO-OPSET (fixed by 24e6aa0): with `use_operators=True` the decorator names the imported standard opset,
+so a body printed with Python operators only still converts; without `use_operators` the text stays `@script()`. -/
+theorem ops_only_default_opset_fixed :
+    (exportModel ⟨false, true, false, false⟩ 2
+      ⟨"g", none, [("", 18)], .mk ["x"] ["y"] [] 0 [.mk "Add" "" "" ["x", "x"] ["y"] []]⟩).toOption
+      = some ["deco default_opset=opset18", "sig g(x|)", "L1 op y = x + x", "L1 return y"]
+    ∧ (exportModel ⟨false, false, false, false⟩ 2
+      ⟨"g", none, [("", 18)], .mk ["x"] ["y"] [] 0 [.mk "Add" "" "" ["x", "x"] ["y"] []]⟩).toOption
+      = some ["deco ", "sig g(x|)", "L1 call y = opset18.Add(x,x|)", "L1 return y"] := by
+  constructor <;> decide +kernel
+
+/-- the decorator argument is empty exactly when operators are not used or no standard opset is imported -/
+theorem default_opset_arg_spec (o : Opts) (opsets : List (String × Nat)) :
+    defaultOpsetArg o opsets = "" ↔ (o.useOps = false ∨ (opsets.lookup "" = none ∧ opsets.lookup "ai.onnx" = none)) := by
+  unfold defaultOpsetArg
+  cases hu : o.useOps
+  · simp
+  · cases h1 : opsets.lookup "" with
+    | some v =>
+      simp only [if_true, Bool.true_eq_false, false_or, reduceCtorEq, false_and, iff_false]
+      intro h
+      have := congrArg String.toList h
+      simp [String.toList_append] at this
+    | none =>
+      cases h2 : opsets.lookup "ai.onnx" with
+      | some v =>
+        simp only [if_true, Bool.true_eq_false, false_or, true_and, reduceCtorEq, iff_false]
+        intro h
+        have := congrArg String.toList h
+        simp [String.toList_append] at this
+      | none => simp
 
 end OV.Props.C13
